@@ -115,7 +115,7 @@ schedule, for every configuration.  The same `verdict` is applied by the driver 
 replay of the same schedule. -/
 theorem C14_model_verdict_ok (c : Cfg) (ex : Expiry) (hcf : c.countFails = (ex != .off)) (n : Nat)
     (events : List (Nat × Nat)) :
-    AccountingSpec.verdict c ex (replay c ex (State.init c n) [] events) = "ok" := by
+    AccountingSpec.verdict c ex (replay c ex (State.init c n) [] [] events) = "ok" := by
   unfold AccountingSpec.verdict
   have hw := wf_init c n
   have h1 : List.replicate c.nHosts 0 = (State.init c n).timers := rfl
@@ -130,7 +130,7 @@ theorem C14_model_verdict_ok (c : Cfg) (ex : Expiry) (hcf : c.countFails = (ex !
       simp [hi, this]
     · have : (List.range c.nHosts)[i]? = none := List.getElem?_eq_none (by simp; omega)
       simp [hi, this]
-  have := verdictGo_replay c ex hcf events _ [] hw
+  have := verdictGo_replay c ex hcf events _ [] [] hw
   rw [← h2] at this
   exact this
 
